@@ -107,12 +107,14 @@ func workerCmd(args []string, engines map[string]Engine) int {
 		}
 		idx := *start + k**stride
 		fmt.Fprintf(w, "b %d\n", idx)
-		if k%64 == 0 {
-			w.Flush()
-		}
+		w.Flush() // the driver's watchdog and crash attribution rely on seeing this line
 		seed := Mix(*base, e.Name(), idx)
 		wantFull := *full || int(k) < *samples
+		began := time.Now()
 		o := RunOnce(e, NewTape(seed), idx, wantFull)
+		if d := time.Since(began); d > 20*time.Second {
+			fmt.Fprintf(os.Stderr, "slow run: engine %s index %d took %v\n", e.Name(), idx, d.Round(time.Second))
+		}
 		sum.Runs++
 		sum.Evals += o.Evals
 		sum.Steps += o.Steps
